@@ -517,6 +517,11 @@ func parseSelect(text string) (*influxql.SelectStatement, error) {
 	return sel, nil
 }
 
+// pieceCache: expression text -> S-expression of ParseExpr alone ("" if it does not parse).
+// Every parser instance is kept alive by the verif hook's reader registry, so the same few
+// thousand texts are not parsed again for every case.
+var pieceCache = map[string]string{}
+
 // checkPieces verifies that the statement parser produced, for every expression text of the
 // structured case, the tree the expression parser alone produces (which is what the model
 // parses): otherwise the case is not about RewriteFields.
@@ -524,7 +529,18 @@ func checkPieces(s *fStmt, sel *influxql.SelectStatement) string {
 	if len(sel.Fields) != len(s.fields) || len(sel.Dimensions) != len(s.dims) || len(sel.Sources) != len(s.srcs) || (sel.Condition != nil) != s.hasCond {
 		return "shape"
 	}
-	piece := func(text string) (string, bool) {
+	piece := func(text string) (res string, ok bool) {
+		if v, hit := pieceCache[text]; hit {
+			return v, v != ""
+		}
+		defer func() {
+			if len(pieceCache) < 200000 {
+				if !ok {
+					res = ""
+				}
+				pieceCache[text] = res
+			}
+		}()
 		p := influxql.NewParser(strings.NewReader(text))
 		var e influxql.Expr
 		var err error
@@ -588,7 +604,10 @@ func unescapeRegexText(text string) string {
 	return strings.Replace(t, `\/`, `/`, -1)
 }
 
-func runRewrite(c *fCase) (string, *influxql.SelectStatement, *influxql.SelectStatement, error, string) {
+// runRewrite parses the rendered statement and rewrites it; with check it first makes sure the
+// pieces parse alone as they parse inside the statement (the implementation runner does; the
+// property oracle works on the parsed statement whatever the pieces are).
+func runRewrite(c *fCase, check bool) (string, *influxql.SelectStatement, *influxql.SelectStatement, error, string) {
 	text := c.stmt.text()
 	sel, err := parseSelect(text)
 	if err != nil {
@@ -597,8 +616,10 @@ func runRewrite(c *fCase) (string, *influxql.SelectStatement, *influxql.SelectSt
 		}
 		return "skip-parse-error " + encStr(err.Error()), nil, nil, nil, text
 	}
-	if r := checkPieces(c.stmt, sel); r != "" {
-		return "skip-parse-mismatch-" + r, nil, nil, nil, text
+	if check {
+		if r := checkPieces(c.stmt, sel); r != "" {
+			return "skip-parse-mismatch-" + r, nil, nil, nil, text
+		}
 	}
 	rw, rerr := sel.RewriteFields(c.mapper())
 	return "", sel, rw, rerr, text
@@ -614,6 +635,18 @@ func canonRewrite(rw *influxql.SelectStatement, rerr error) string {
 	return b.String()
 }
 
+// manyDigits: can the text contain a number literal of more than 15 significant digits at all?
+// (cheap filter before longNumberLiteral, which runs a scanner)
+func manyDigits(t string) bool {
+	n := 0
+	for _, r := range t {
+		if r >= '0' && r <= '9' {
+			n++
+		}
+	}
+	return n > 15
+}
+
 func implFieldsRewrite(args []string) string {
 	c, err := decFCase(args)
 	if err != nil {
@@ -622,11 +655,11 @@ func implFieldsRewrite(args []string) string {
 	var all []string
 	c.stmt.allTexts(&all)
 	for _, t := range all {
-		if longNumberLiteral(t) {
+		if manyDigits(t) && longNumberLiteral(t) {
 			return "skip-float-precision"
 		}
 	}
-	skip, _, rw, rerr, _ := runRewrite(c)
+	skip, _, rw, rerr, _ := runRewrite(c, true)
 	if skip != "" {
 		return skip
 	}
@@ -1247,25 +1280,22 @@ func propFieldsRewriteFull(args []string) (string, string) {
 	if err != nil {
 		return "skip", ""
 	}
-	skip, sel, rw, rerr, text := runRewrite(c)
+	skip, sel, rw, rerr, text := runRewrite(c, false)
 	if skip != "" {
 		return "skip", ""
 	}
 	before := sel.String()
 	first := canonRewrite(rw, rerr)
 	// determinism: the Go maps are rebuilt and re-iterated in a fresh random order every run
+	// (RewriteFields works on a clone; the same parsed statement is used again and must stay as it was)
 	for i := 0; i < 5; i++ {
-		sel2, err := parseSelect(text)
-		if err != nil {
-			return "statement no longer parses", ""
-		}
-		rw2, rerr2 := sel2.RewriteFields(c.mapper())
+		rw2, rerr2 := sel.RewriteFields(c.mapper())
 		if got := canonRewrite(rw2, rerr2); got != first {
 			return fmt.Sprintf("%s: run %d differs: %s vs %s", text, i+2, first, got), ""
 		}
-	}
-	if sel.String() != before {
-		return "the receiver was modified", ""
+		if sel.String() != before {
+			return "the receiver was modified", ""
+		}
 	}
 	wantErr := c.expectError(sel)
 	if wantErr != (rerr != nil) {
